@@ -23,7 +23,7 @@ ASSUMPTIONS = ['same-instant leniency: in packet mode a packet that arrived at a
                'later arrivals of that very instant; monitor samples at an instant where a transmission starts or ends '
                'may see either side', 'FLOAT workloads compare time laws with relative tolerance 1e-9, GRID exactly',
                'RED: one uniform draw per arrival in the probabilistic regions, drop iff draw <= p (equality lenient)']
-PROBES = ['fill_exactly_at_limit', 'arrival_coincides_with_departure', 'rate_zero', 'tail_drop_bytes', 'tail_drop_packets',
+PROBES = ['prestamped_packets', 'rate_assigned_after_construction', 'fill_exactly_at_limit', 'arrival_coincides_with_departure', 'rate_zero', 'tail_drop_bytes', 'tail_drop_packets',
           'unlimited', 'monitor_sample', 'red_below_min', 'red_linear_region', 'red_above_max', 'red_above_qlimit',
           'red_drop_by_draw', 'waited']
 
@@ -75,6 +75,12 @@ def gen(rng, tier):
     else:
         case['limit_bytes'] = False
         case['qlimit'] = rng.choice([1, 2, 2, 3, 4, 6])
+    if rng.random() < 0.15:
+        # packets that already carry a stamp under this port's element id (an upstream port with the same id)
+        case['prestamped'] = True
+    if rng.random() < 0.12:
+        # the rate is assigned to the public attribute after construction, once the port's process has started
+        case['late_rate'] = rng.choice([1, 12345, rate * 2 + 8])
     if rng.random() < 0.35:
         case['monitor'] = {'included': rng.random() < 0.5,
                            'dist': [rng.choice([0.125, 0.25, 0.5, 1.0, 0.0625]) for _ in range(8)]}
@@ -102,13 +108,27 @@ def run(case):
             port = REDPort(env, case['rate'], red['max'], red['min'], red['maxp'], eid, red['qlimit'],
                            weight_factor=red.get('wf', 9), limit_bytes=red.get('limit_bytes', False))
         else:
-            port = Port(env, case['rate'], case.get('qlimit'), case.get('limit_bytes', False), eid)
+            late = case.get('late_rate')
+            port = Port(env, late if late else case['rate'], case.get('qlimit'), case.get('limit_bytes', False), eid)
+            if late:
+                def configure():
+                    port.rate = case['rate']
+                    return
+                    yield
+                env.process(configure())
         sink = Recorder(w, 'sink')
 
         def post_out(elem, p):
             return (elem.byte_size, p.perhop_time.get(eid, '<none>') if isinstance(p.perhop_time, dict) else '<bad>')
         port.out = OutTap(w, 'port', port, sink, post=post_out)
         tap = InTap(w, 'port', port, pre=_pre, post=_post)
+        if case.get('prestamped'):
+            class PreStamp:
+                def put(self, p, tap=tap):
+                    if p.packet_id % 2:
+                        p.perhop_time[eid] = -7.0
+                    return tap.put(p)
+            tap = PreStamp()
         start_injector(w, tap, [tuple(x) for x in case.get('workload', [])])
         mon = None
         if case.get('monitor') and case.get('elem') != 'REDPort':
@@ -119,6 +139,10 @@ def run(case):
     finally:
         red_mod.random = saved
     viol, stats, nontrivial = check(w, case, port, mon)
+    if case.get('prestamped'):
+        stats['prestamped_packets'] = 1
+    if case.get('late_rate') and case.get('elem') != 'REDPort':
+        stats['rate_assigned_after_construction'] = 1
     res = {'viol': viol, 'digest': digest_of(w.log), 'nontrivial': nontrivial, 'stats': stats,
            'simtime': float(env.now), 'steps': w.steps}
     if case.get('_excerpt'):
